@@ -828,6 +828,63 @@ pub fn gen_case(family: &str, seed: u64, idx: usize) -> Case {
     }
 }
 
+/// an unparenthesised operator sequence `[NOT]* a0 (AND|OR) [NOT]* a1 …` (operator precedence)
+#[derive(Clone, Debug)]
+pub struct FlatCase {
+    pub seed: u64,
+    pub idx: usize,
+    pub db: Db,
+    pub first: (usize, Expr),
+    pub rest: Vec<(bool /* AND */, usize, Expr)>,
+}
+
+impl FlatCase {
+    fn tok(&self) -> String {
+        let mut v = vec![format!("{}:{}", self.first.0, self.first.1.hex())];
+        for (and, k, e) in &self.rest {
+            v.push(format!("{}:{k}:{}", if *and { "A" } else { "O" }, e.hex()));
+        }
+        v.join(",")
+    }
+    fn human(&self) -> String {
+        let mut s = format!("{}{}", "NOT ".repeat(self.first.0), self.first.1.rpn());
+        for (and, k, e) in &self.rest {
+            s.push_str(&format!(" {} {}{}", if *and { "AND" } else { "OR" }, "NOT ".repeat(*k), e.rpn()));
+        }
+        s
+    }
+    pub fn descr(&self) -> String {
+        format!("c11p/{}/{} lib db={} seq={}", self.seed, self.idx, self.db.tok(), self.human())
+    }
+    /// the same data as an ordinary case (for probes and the response table)
+    fn as_case(&self) -> Case {
+        let mut items = vec![item("a0", self.first.1.clone())];
+        for (i, (_, _, e)) in self.rest.iter().enumerate() {
+            items.push(item(&format!("a{}", i + 1), e.clone()));
+        }
+        Case { family: "c11p".into(), seed: self.seed, idx: self.idx, runner: Runner::Lib, db: self.db.clone(), items }
+    }
+}
+
+pub fn gen_flat(seed: u64, idx: usize) -> FlatCase {
+    let lit = |s: &str| Expr::Lit(vec![(p(s), Op::None)], Op::None);
+    match idx {
+        0 => return FlatCase { seed, idx, db: small_db(), first: (0, lit("10.0.0.0/8")), rest: vec![(true, 0, lit("11.0.0.0/8")), (false, 0, lit("12.0.0.0/8"))] },
+        1 => return FlatCase { seed, idx, db: small_db(), first: (1, lit("10.0.0.0/8")), rest: vec![(true, 0, lit("10.0.0.0/8"))] },
+        2 => return FlatCase { seed, idx, db: small_db(), first: (0, Expr::AsSet("AS-S0".into(), Op::None)), rest: vec![(true, 0, Expr::AutNum(64501, Op::None)), (false, 0, Expr::RouteSet("RS-R0".into(), Op::None))] },
+        _ => {}
+    }
+    let mut rng = case_rng(seed, "c11p", idx);
+    let short = idx % 2 == 1;
+    let db = gen_db(&mut rng, &GenOpts { ranged_members: false, unknown_names: false, short });
+    let names = names_of(&db, short);
+    let mut nots = |rng: &mut Rng| if short && rng.chance(1, 3) { 1 + rng.below(2) } else { 0 };
+    let first = (nots(&mut rng), gen_atom(&mut rng, &names, false, false));
+    let k = 1 + rng.below(3);
+    let rest = (0..k).map(|_| (rng.chance(1, 2), nots(&mut rng), gen_atom(&mut rng, &names, false, false))).collect();
+    FlatCase { seed, idx, db, first, rest }
+}
+
 // ---------------------------------------------------------------------------------------------
 // probes
 // ---------------------------------------------------------------------------------------------
@@ -1340,6 +1397,7 @@ pub fn main(opts: &Opts) {
     install_panic_hook();
 
     // cases
+    let mut flats: Vec<FlatCase> = vec![];
     let mut cases: Vec<Case> = vec![];
     if let Some(path) = &opts.replay {
         for l in std::fs::read_to_string(path).unwrap().lines() {
@@ -1350,6 +1408,9 @@ pub fn main(opts: &Opts) {
                     if let (Ok(seed), Ok(idx)) = (parts[1].parse::<u64>(), parts[2].parse::<usize>()) {
                         if ["c11", "c17", "c15"].contains(&parts[0]) {
                             cases.push(gen_case(parts[0], seed, idx));
+                        }
+                        if parts[0] == "c11p" {
+                            flats.push(gen_flat(seed, idx));
                         }
                     }
                 }
@@ -1366,6 +1427,11 @@ pub fn main(opts: &Opts) {
         };
         for idx in 0..n {
             cases.push(gen_case(&family, opts.seed, idx));
+        }
+        if family == "c11" {
+            for idx in 0..(if opts.thorough() { 300 } else { 40 }) {
+                flats.push(gen_flat(opts.seed, idx));
+            }
         }
     }
     if std::env::var("VH_DEBUG").is_ok() { for c in &cases { eprintln!("case {}", c.descr()); } }
@@ -1488,7 +1554,15 @@ pub fn main(opts: &Opts) {
                                 Some(("err", _)) => format!("done {}=none", it.name),
                                 _ => outcome.clone(),
                             };
-                            sink.spec(&d, format!("irr spec15 {db} {FUEL} {cand} {pt} {o}"));
+                            if outcome == "panic=aspath-regex" || outcome == "panic=attr-match" {
+                                // `todo!()` inside the rpsl crate, reached through the library API: not
+                                // repairable in this repository at this level (the agent contains it
+                                // per candidate); what matters here is that the evaluator survives it
+                                // (spec17 below)
+                                sink.count("lib_level_rpsl_todo_panic");
+                            } else {
+                                sink.spec(&d, format!("irr spec15 {db} {FUEL} {cand} {pt} {o}"));
+                            }
                         }
                         _ => {}
                     }
@@ -1524,6 +1598,84 @@ pub fn main(opts: &Opts) {
                 sink.sample(format!("{d} -> {}", obs.run));
             }
         }
+    }
+
+    // operator precedence: unparenthesised sequences (family c11 only)
+    if !flats.is_empty() {
+        let mut lines = vec![];
+        let mut layout = vec![];
+        for f in &flats {
+            let c = f.as_case();
+            let qs = all_queries(&c);
+            let first = lines.len();
+            for q in &qs {
+                lines.push(format!("irr serve {} {q}", f.db.tok()));
+            }
+            lines.push(format!("irr flattext {}", f.tok()));
+            layout.push((first, qs));
+        }
+        let answers = modeld(&lines);
+        struct FJob {
+            f: FlatCase,
+            table: HashMap<String, Vec<u8>>,
+            text: Option<String>,
+            probes: Vec<Pfx>,
+        }
+        let mut jobs = vec![];
+        for (f, (first, qs)) in flats.iter().zip(layout) {
+            let mut table = HashMap::new();
+            for (j, q) in qs.iter().enumerate() {
+                if let Some(b) = unhex(&answers[first + j]) {
+                    table.insert(qwire(q), b);
+                }
+            }
+            let text = unhex(&answers[first + qs.len()]).and_then(|b| String::from_utf8(b).ok());
+            jobs.push(FJob { probes: probes(&f.as_case()), f: f.clone(), table, text });
+        }
+        let results = run_pool(jobs, 8, move |j: FJob| {
+            let Some(text) = j.text.clone() else { return (j.f, j.probes, String::new(), "modeld rejected the case".to_string()) };
+            let fake = FakeIrrd::start(j.table);
+            let mut ev = match bgpfu::RpslEvaluator::new("127.0.0.1", fake.port) {
+                Ok(e) => e,
+                Err(e) => return (j.f, j.probes, String::new(), format!("connect: {e}")),
+            };
+            let start = fake.begin(vec![]);
+            let o = eval_once(&mut ev, &text, &j.probes);
+            let log = fake.log_from(start);
+            (j.f, j.probes, format!("{o}/{}", log_tok(&log)), String::new())
+        });
+        for (f, probes, obs, note) in results {
+            let d = f.descr();
+            if !note.is_empty() {
+                sink.direct(&d, format!("violation harness-{}", note.replace(' ', "-")));
+                continue;
+            }
+            let pt = probes_tok(&probes);
+            let db = f.db.tok();
+            sink.count("precedence.sequences");
+            sink.corr(&d, format!("irr evalflat {cfg} {db} {FUEL} {} {pt}", f.tok()), obs.clone());
+            let outcome = obs.split('/').next().unwrap_or("").to_string();
+            sink.spec(&d, format!("irr specprec {db} {FUEL} {} {pt} {outcome}", f.tok()));
+            sink.sample(format!("{d} -> {outcome}"));
+        }
+    }
+
+    // liveness of NOT: complementing a set must not take time exponential in the prefix length
+    let replay_not = opts.replay.as_ref().map(|p| std::fs::read_to_string(p).unwrap_or_default().contains("case\tnot-complexity")).unwrap_or(false);
+    if (opts.replay.is_none() && family == "c11") || replay_not {
+        let fake = FakeIrrd::start(HashMap::new());
+        let time = |len: u8| -> f64 {
+            let mut ev = bgpfu::RpslEvaluator::new("127.0.0.1", fake.port).unwrap();
+            let expr: rpsl::expr::MpFilterExpr = format!("NOT {{10.0.0.0/{len}}}").parse().unwrap();
+            let t = Instant::now();
+            let _ = ev.evaluate(expr).map(|s| s.ranges().count());
+            t.elapsed().as_secs_f64()
+        };
+        let (t12, t15, t18) = (time(12), time(15), time(18));
+        sink.notes.push(format!("NOT {{10.0.0.0/n}}: n=12 {:.1} ms, n=15 {:.1} ms, n=18 {:.1} ms", t12 * 1e3, t15 * 1e3, t18 * 1e3));
+        // linear (or n log n) growth would give ratios near 1.2; doubling per bit gives 8 per step
+        let exponential = t18 > 0.05 && t18 > 5.0 * t15 && t15 > 3.0 * t12;
+        sink.direct("not-complexity 12/15/18", if exponential { "violation not-exponential-in-prefix-length".into() } else { "ok".into() });
     }
 
     // connection refused: construction fails with an error (no panic, no hang)
